@@ -92,7 +92,8 @@ URL_SKELS = [
     ("userinfo", ["http://", ("in", "aA%:~!$&'()*+,;=-._"), ("in", "aA%4:~!$"), ("in", "1fF:@"), "@h/"]), ("userinfo-esc", ["http://u%", HEX, HEX, ":p%", HEX, HEX, "@h"]),
     ("port2", ["http://h:", ("in", "0123456789"), ("in", "0123456789"), "/p"]), ("port-https", ["https://h:44", ("in", "0123456789"), "?q"]),
     ("default-port-http", ["http://h:80/", NS]), ("default-port-https", ["https://u@h:443/", NS, "?q"]), ("default-port-ws", ["ws://h:80", ("in", "/?#")]),
-    ("default-port-ftp", ["ftp://h:21/", NS]), ("port-0", ["http://h:0/", NS]),
+    ("default-port-ftp", ["ftp://h:21/", NS]), ("port-0", ["http://h:0/", NS]), ("userinfo-port-0", ["http://u", ("in", ":@a"), "@h:0/", NS]),
+    ("userinfo-esc-default-port", ["http://u%", HEX, HEX, ":p%4", ("in", "0aA"), "@h:80/"]),
     ("ipv6", ["http://[::1]:8/", NS, "?", NS]), ("ipv6-zone", ["http://[fe80::1%25e", ("in", "tT0.-"), "h0]/p"]), ("ipv4-upper", ["HTTP://1.2.3.4/", NS]),
     ("host-case", ["hTTp://EXAMPLE.c", ("in", "oO0-"), "m:80/", NS]), ("regname", ["http://g", ("in", "aZ-._~!$&'()*+,;=%"), ("in", "aZ4-._~"), ("in", "bF1"), "c/"]),
     ("escaped-colon-first-segment", [("in", "Na1."), "%3", ("in", "Aa9"), NS]), ("netpath", ["//h/", NS, NS]), ("rooted", ["/a", NS, NS, NS]), ("scheme-rootless", ["http:", NS, NS]), ("other-scheme-rootless", ["x:", NS, NS]),
